@@ -31,8 +31,10 @@ pub fn dup3(old: Fd, new: Fd, cloexec: bool) -> crate::Result<()> {
             )
         };
         // Trusting the syscall [API](https://man7.org/linux/man-pages/man2/dup.2.html#RETURN_VALUE)
-        #[expect(clippy::cast_possible_wrap, clippy::cast_possible_truncation)]
-        if res as i32 == Errno::EBUSY.raw() {
+        // The kernel reports `EBUSY` (race with `open`) as `-EBUSY` in the full-width return register,
+        // a successful result equal to `EBUSY` (duplicating onto that fd number) is not a reason to retry.
+        #[expect(clippy::cast_possible_wrap)]
+        if res as isize == -(Errno::EBUSY.raw() as isize) {
             continue;
         }
         bail_on_below_zero!(res, "`DUP3` syscall failed");
